@@ -323,6 +323,18 @@ func (c *Ctx) Finish() int {
 		fmt.Printf("INCONCLUSIVE property=%s %s\n", c.ID, s)
 	}
 	// evidence
+	if c.assume == nil {
+		c.assume = []string{}
+	}
+	if c.inconcl == nil {
+		c.inconcl = []string{}
+	}
+	if knownLines == nil {
+		knownLines = []string{}
+	}
+	if c.exhaustive == nil {
+		c.exhaustive = []string{}
+	}
 	feat := map[string]int{}
 	for k, v := range c.feat {
 		feat[k] = v
